@@ -191,6 +191,18 @@ def run_case(case):
             tot_w = psutil.net_io_counters(nowrap=True)
             dtot_w = psutil.disk_io_counters(nowrap=True)
             du = psutil.disk_usage(mnt)
+            # an interface goes away and comes back with smaller counters
+            # (re-created veth, replugged adapter): the default call
+            # (nowrap=True) must again report exactly the kernel's counters
+            back = None
+            if nics and case.get("replug", True):
+                victim = nics[len(nics) // 2]
+                others = [n for n in nics if n is not victim]
+                k.set_file("/proc/net/dev", render_netdev(others))
+                psutil.net_io_counters(pernic=True)
+                reborn = dict(victim, rx=[x // 2 for x in victim["rx"]], tx=[x // 3 for x in victim["tx"]])
+                k.set_file("/proc/net/dev", render_netdev(others + [reborn]))
+                back = (reborn, psutil.net_io_counters(pernic=True))
         except Exception as e:  # noqa: BLE001
             import traceback
             raise Violation("no-exception", f"{e!r} "
@@ -213,6 +225,14 @@ def run_case(case):
             raise Violation("net-total", f"{tot!r} expected {esum}")
     if pernic_w != pernic or tot_w != tot:
         raise Violation("net-nowrap-fresh", "nowrap=True on a fresh cache differs")
+    if back is not None:
+        reborn, got = back
+        e = expected_nic(reborn)
+        g = got.get(reborn["name"])
+        if g is None or tuple(g) != e:
+            raise Violation("net-pernic", f"{reborn['name']} went away and came back with counters {e}; "
+                                          f"net_io_counters(pernic=True) reports {g!r}")
+        labels.add("nic-gone-and-back-lower")
 
     # --- disks
     exp_disks = {name_of(d): expected_disk(d, sysfs_mode) for d in disks}
